@@ -329,8 +329,10 @@ func (x *Exec) applyContract(st *State, fc *FuncContract, key string, callee *ss
 			}
 		}
 	}
-	for _, e := range fc.Ensures {
-		x.assume(st, x.evalBool(st, e.SX, env))
+	if len(fc.Focus) == 0 { // focused contracts prove "focus => post"; nothing may be assumed from them at a call
+		for _, e := range fc.Ensures {
+			x.assume(st, x.evalBool(st, e.SX, env))
+		}
 	}
 	return res
 }
@@ -373,7 +375,6 @@ func (x *Exec) implementers(iface types.Type) []types.Type {
 // call executes a call instruction; returns false when the path ends.
 func (x *Exec) call(st *State, i *ssa.Call) bool {
 	c := i.Common()
-	fr := st.top()
 	var args []Val
 	for _, a := range c.Args {
 		args = append(args, x.get(st, a))
@@ -382,9 +383,37 @@ func (x *Exec) call(st *State, i *ssa.Call) bool {
 		x.builtin(st, i, b, args)
 		return true
 	}
+	var fv Val
+	if !c.IsInvoke() {
+		fv = x.get(st, c.Value)
+	} else {
+		fv = x.get(st, c.Value)
+	}
+	return x.callCommon(st, c, i, i.Pos(), args, fv)
+}
+
+// setRes binds a call result if the call has a result-carrying instruction.
+func setRes(fr *Frame, i ssa.Value, v Val) {
+	if i != nil {
+		fr.vals[i] = v
+	}
+}
+
+func resType(i ssa.Value, sig *types.Signature) types.Type {
+	if i != nil {
+		return i.Type()
+	}
+	if sig.Results().Len() == 1 {
+		return sig.Results().At(0).Type()
+	}
+	return sig.Results()
+}
+
+func (x *Exec) callCommon(st *State, c *ssa.CallCommon, i ssa.Value, pos token.Pos, args []Val, fv Val) bool {
+	fr := st.top()
 	if c.IsInvoke() {
-		recv := x.get(st, c.Value)
-		x.safety(st, "nil-iface-call", fmt.Sprintf("(not (= (i.tag %s) 0))", recv.S), i.Pos())
+		recv := fv
+		x.safety(st, "nil-iface-call", fmt.Sprintf("(not (= (i.tag %s) 0))", recv.S), pos)
 		ms := x.methodSpec(c)
 		sig := c.Method.Type().(*types.Signature)
 		if ms != nil && ms.Mode == "fn" {
@@ -406,32 +435,32 @@ func (x *Exec) call(st *State, i *ssa.Call) bool {
 			switch rt.Len() {
 			case 0:
 			case 1:
-				fr.vals[i] = mk(0, rt.At(0).Type())
+				setRes(fr, i, mk(0, rt.At(0).Type()))
 			default:
 				var tup []Val
 				for k := 0; k < rt.Len(); k++ {
 					tup = append(tup, mk(k, rt.At(k).Type()))
 				}
-				fr.vals[i] = Val{Tup: tup, T: rt}
+				setRes(fr, i, Val{Tup: tup, T: rt})
 			}
 			return true
 		}
 		if ms != nil && ms.Mode == "dispatch" {
-			x.dispatch(st, i, recv, args, sig)
+			x.dispatch(st, c, i, recv, args, sig)
 			return true
 		}
 		x.abstr["invoke "+typeStr(c.Value.Type())+"."+c.Method.Name()]++
+		st.calls["effect:invoke "+typeStr(c.Value.Type())+"."+c.Method.Name()]++
 		x.havocAll(st)
 		x.advanceNow(st)
 		if sig.Results().Len() > 0 {
-			fr.vals[i] = x.havocVal(st, i.Type(), "invoke")
+			setRes(fr, i, x.havocVal(st, resType(i, sig), "invoke"))
 		}
 		return true
 	}
 	// static or closure
 	var callee *ssa.Function
 	var clo []Val
-	fv := x.get(st, c.Value)
 	if sc := c.StaticCallee(); sc != nil {
 		callee = sc
 		if fv.Fn == sc {
@@ -450,20 +479,25 @@ func (x *Exec) call(st *State, i *ssa.Call) bool {
 		}
 		x.advanceNow(st)
 		if sig := c.Signature(); sig.Results().Len() > 0 {
-			res = x.havocVal(st, i.Type(), "dyn")
-			fr.vals[i] = res
+			res = x.havocVal(st, resType(i, sig), "dyn")
+			setRes(fr, i, res)
 		}
 		st.dyn = append(st.dyn, DynCall{Site: len(st.dyn), Fn: fv, Args: args, Res: res})
-		x.abstr["dynamic call at "+x.L.pos(i.Pos())]++
+		x.abstr["dynamic call at "+x.L.pos(pos)]++
+		st.calls["effect:dyn "+dynDesc(c.Value)]++
 		return true
 	}
 	fc, key := x.contractOf(callee)
 	st.calls[key]++
 	sig := callee.Signature
 	if fc != nil && !fc.Inline {
-		res := x.applyContract(st, fc, key, callee, sig, args, i.Pos())
+		res := x.applyContract(st, fc, key, callee, sig, args, pos)
 		if sig.Results().Len() > 0 {
-			fr.vals[i] = res
+			setRes(fr, i, res)
+			st.callRes[key] = append(st.callRes[key], res)
+		}
+		if fc.ModAll {
+			st.calls["effect:modifies-all "+shortKey(key)]++
 		}
 		return true
 	}
@@ -474,20 +508,43 @@ func (x *Exec) call(st *State, i *ssa.Call) bool {
 	if x.isAssumedPure(callee) {
 		x.abstr["assumed-pure "+shortKey(key)]++
 		if sig.Results().Len() > 0 {
-			fr.vals[i] = x.havocVal(st, i.Type(), "ext")
+			setRes(fr, i, x.havocVal(st, resType(i, sig), "ext"))
 		}
 		return true
 	}
 	x.abstr["havoc "+shortKey(key)]++
+	st.calls["effect:havoc "+shortKey(key)]++
 	x.havocAll(st)
 	x.advanceNow(st)
 	if sig.Results().Len() > 0 {
-		fr.vals[i] = x.havocVal(st, i.Type(), "call")
+		setRes(fr, i, x.havocVal(st, resType(i, sig), "call"))
 	}
 	return true
 }
 
+// dynDesc describes the callee expression of a dynamic call (e.g. the struct field it was loaded from).
+func dynDesc(v ssa.Value) string {
+	switch u := v.(type) {
+	case *ssa.UnOp:
+		if fa, ok := u.X.(*ssa.FieldAddr); ok {
+			if st, _, ok := structOf(fa.X.Type().Underlying().(*types.Pointer).Elem()); ok {
+				return "field:" + st.Field(fa.Field).Name()
+			}
+		}
+	case *ssa.Field:
+		if st, _, ok := structOf(u.X.Type()); ok {
+			return "field:" + st.Field(u.Field).Name()
+		}
+	case *ssa.Parameter:
+		return "param:" + u.Name()
+	case *ssa.FreeVar:
+		return "freevar:" + u.Name()
+	}
+	return "value:" + v.Name()
+}
+
 func (x *Exec) pushFrame(st *State, callee *ssa.Function, args []Val, clo []Val, retTo ssa.Value) {
+	st.top().awaiting = true
 	if !x.analyzed(callee) {
 		x.analyzeLoops(callee)
 	}
@@ -520,8 +577,7 @@ func (x *Exec) analyzed(fn *ssa.Function) bool {
 	return false
 }
 
-func (x *Exec) dispatch(st *State, i *ssa.Call, recv Val, args []Val, sig *types.Signature) {
-	c := i.Common()
+func (x *Exec) dispatch(st *State, c *ssa.CallCommon, i ssa.Value, recv Val, args []Val, sig *types.Signature) {
 	impls := x.implementers(c.Value.Type())
 	rt := sig.Results()
 	var res Val
@@ -572,7 +628,7 @@ func (x *Exec) dispatch(st *State, i *ssa.Call, recv Val, args []Val, sig *types
 		x.assum["dynamic types of "+typeStr(c.Value.Type())+" limited to its implementations in the loaded module"] = true
 	}
 	if rt.Len() > 0 {
-		st.top().vals[i] = res
+		setRes(st.top(), i, res)
 	}
 }
 
@@ -644,6 +700,9 @@ func (x *Exec) builtin(st *State, i *ssa.Call, b *ssa.Builtin, args []Val) {
 	case "ssa:wrapnilchk":
 		x.safety(st, "nil-deref", fmt.Sprintf("(not (= %s 0))", args[0].S), i.Pos())
 		fr.vals[i] = args[0]
+	case "recover":
+		// on a normally returning path no panic is in progress
+		fr.vals[i] = Val{S: "(mk_iface 0 0)", T: i.Type()}
 	case "print", "println", "close", "panic":
 	default:
 		if i.Type() != nil {
